@@ -29,6 +29,36 @@ func (in c12Input) bytes() []byte {
 	x := uint64(in.Seed)*2862933555777941757 + 3037000493
 	next := func() uint64 { x = x*2862933555777941757 + 3037000493; return x >> 33 }
 	switch in.Shape {
+	case "stream", "magic":
+		// the data is itself a compressed file (a .gz, .zst ... served as it is), or at least
+		// begins like one
+		inner := c12Input{Size: in.Size / 2, Shape: "text", Seed: in.Seed}.bytes()
+		kind := in.Seed % 5
+		if in.Shape == "magic" {
+			magic := [][]byte{{0x1f, 0x8b, 0x08}, {0x28, 0xb5, 0x2f, 0xfd}, {0xff, 0x06, 0x00, 0x00, 0x73, 0x4e, 0x61, 0x50, 0x70, 0x59}, {0x04, 0x22, 0x4d, 0x18}, {0xce, 0xb2, 0xcf, 0x81}}[kind]
+			rnd := c12Input{Size: in.Size, Shape: "random", Seed: in.Seed + 1}.bytes()
+			return append(append([]byte{}, magic...), rnd...)
+		}
+		var enc []byte
+		switch kind {
+		case 0:
+			enc = refGzip(inner, 6)
+		case 1:
+			enc = refZstd(inner, 1)
+		case 2:
+			enc = refSnappy(inner)
+		case 3:
+			enc = refBrotli(inner, 4)
+		default:
+			if len(inner) == 0 {
+				inner = []byte{1}
+			}
+			enc = refLZ4Greedy(inner)
+		}
+		if in.Seed%3 == 0 {
+			enc = append(enc, []byte("trailing text after the stream")...)
+		}
+		return enc
 	case "random":
 		for i := range b {
 			b[i] = byte(next())
@@ -95,7 +125,7 @@ func genC12Input(maxSize int) func(t *rapid.T) c12Input {
 		}
 		return c12Input{
 			Size:  size,
-			Shape: rapid.SampledFrom([]string{"random", "run", "period", "text", "mixed"}).Draw(t, "shape"),
+			Shape: rapid.SampledFrom([]string{"random", "run", "period", "text", "mixed", "text", "stream", "magic"}).Draw(t, "shape"),
 			Seed:  rapid.Uint32().Draw(t, "seed"),
 			Level: rapid.IntRange(-1, 12).Draw(t, "level"),
 		}
@@ -234,7 +264,7 @@ func execC12Decode(in c12Input) *vstat.Outcome {
 	streams = append(streams, stream{"snz", "snappy block", refSnappy(data)})
 	streams = append(streams, stream{"zst", fmt.Sprintf("zstd level %d", zl), refZstd(data, zl)})
 	// streams made of several members / frames are valid streams of their formats
-	if cut := in.Size / 3; true {
+	if cut := len(data) / 3; true {
 		a, b, c := data[:cut], data[cut:2*cut], data[2*cut:]
 		multi := append(append(append([]byte{}, refGzip(a, gl)...), refGzip(b, 1)...), refGzip(c, 9)...)
 		streams = append(streams, stream{"gzip", "three concatenated gzip members", multi})
